@@ -67,9 +67,10 @@ KindOK(kind, s) == IF kind = "ident" THEN s.k = "Ident" ELSE s.k \in ExprKinds
 \* greedy = FALSE: P.  A pattern list matches iff SOME choice of runs makes
 \*   every explicit element match in order; the witness is the leftmost,
 \*   shortest one.
-\* greedy = TRUE: I.  slice_dots.go: the first candidate position at which
-\*   the next section's elements match is final (no backtracking); the list
-\*   must be consumed at the end.
+\* greedy = TRUE: the pinned revision's slice_dots.go: the first candidate
+\*   position at which the next section's elements match is final (no
+\*   backtracking); the list must be consumed at the end.  Kept to recognise
+\*   a regression to that behaviour.
 RECURSIVE MatchNode(_, _, _, _), MatchSlots(_, _, _, _, _), MatchList(_, _, _, _, _, _),
           SectionEnd(_, _), PrefixAt(_, _, _, _, _, _, _), GreedyFind(_, _, _, _, _, _, _)
 
@@ -139,7 +140,13 @@ MatchList(pl, sl, i, j, b, greedy) ==
        IN IF r.ok THEN MatchList(pl, sl, i + 1, j + 1, r.b, greedy) ELSE Fail
 
 PMatch(p, s) == MatchNode(p, s, <<>>, FALSE)
-IMatch(p, s) == MatchNode(p, s, <<>>, TRUE)
+\* The engine backtracks over the candidate positions of each section
+\* (slice_dots.go: matchSections), which is exactly the leftmost-shortest
+\* witness of the existential definition.  The greedy variant is the engine
+\* of the pinned revision: TLC refuted Complete for it (pattern <<..., a>>,
+\* list <<a, a>>), the defect was reproduced and repaired.
+IMatch(p, s) == MatchNode(p, s, <<>>, FALSE)
+GreedyMatch(p, s) == MatchNode(p, s, <<>>, TRUE)
 
 \* ---------------------------------------------------- admissibility ----
 \* Kind of the node the instantiated '+' pattern produces at a site.
@@ -400,7 +407,7 @@ SubtermAt(t, path) ==
        ELSE IF sl.t = "l" /\ Len(path) >= 2 /\ path[2] <= Len(sl.v) THEN SubtermAt(sl.v[path[2]], Tail(Tail(path)))
        ELSE t
 
-GreedyMiss(P, s) == PMatch(P, s).ok /\ ~IMatch(P, s).ok
+GreedyMiss(P, s) == PMatch(P, s).ok /\ ~GreedyMatch(P, s).ok
 
 \* C01/bare-nested-block: a block that is itself a statement of a rewritten
 \* statement list is not rewritten (its parent object was discarded).
